@@ -80,6 +80,24 @@ struct alignas(32) Big
 #define BIG_REL(OP) static bool operator OP(const Big &a, const Big &b) { return a.v OP b.v; }
 BIG_REL(==) BIG_REL(!=) BIG_REL(<) BIG_REL(<=) BIG_REL(>) BIG_REL(>=)
 
+// trivially destructible payload with user-provided constructors and assignment: a `magic` field set by every
+// constructor tells an assignment to / a read of storage that never held a TD (the wrappers' buffers are pre-filled
+// with 0xA5) from one on an object; there is no destructor, so nothing else about its lifetime is observable
+struct TD
+{
+  static const unsigned M = 0x7d5a11c3u;
+  unsigned magic;
+  int v;
+  int chk() const { if (magic != M) reg::errs.push_back("readRaw"); return v; }
+  TD() : magic(M), v(0) {}
+  TD(int k) : magic(M), v(k) {}
+  TD(const TD &o) : magic(M), v(o.chk()) {}
+  TD &operator=(const TD &o) { if (magic != M) reg::errs.push_back("assignRaw"); v = o.chk(); return *this; }
+};
+static_assert(std::is_trivially_destructible<TD>::value, "TD must be trivially destructible");
+#define TD_REL(OP) static bool operator OP(const TD &a, const TD &b) { return a.chk() OP b.chk(); }
+TD_REL(==) TD_REL(!=) TD_REL(<) TD_REL(<=) TD_REL(>) TD_REL(>=)
+
 // source type convertible to std::vector<int>
 static std::vector<int> vecOf(int k) { return std::vector<int>((size_t)k * 5, k); }
 struct VecSrc
@@ -165,6 +183,13 @@ template <> struct P<Big> {
     for (size_t i = 0; i < sizeof v.pad; i++) if (v.pad[i] != (char)v.v) return "corrupt";
     return std::to_string(v.v);
   }
+  static std::string showU(int v) { return std::to_string(v); }
+};
+template <> struct P<TD> {
+  typedef int U;
+  static TD make(int k) { return TD(k); }
+  static U makeU(int k) { return k; }
+  static std::string show(const TD &v) { return std::to_string(v.chk()); }
   static std::string showU(int v) { return std::to_string(v); }
 };
 template <> struct P<Trk<0>> {
@@ -572,6 +597,7 @@ int main()
   modes.push_back(optMode<std::vector<int>>("vec"));
   modes.push_back(optMode<Big>("big"));
   modes.push_back(optMode<Trk<0>>("trk"));
+  modes.push_back(optMode<TD>("tdp"));
   {
     std::shared_ptr<AnyHarness> h(new AnyHarness);
     Mode m;
